@@ -142,9 +142,30 @@ func zzSameBytes(a, b []byte) bool {
 	return len(a) == len(b) && bytes.Equal(a, b)
 }
 
+// Key and name arguments are handed to the API in private buffers that are overwritten as soon as the
+// call has returned (a caller may reuse its key buffer; only values must stay valid until the
+// transaction ends, as documented for Put).
+var zzArgBufs [][]byte
+
+func zzArg(k []byte) []byte {
+	c := zzClone(k)
+	zzArgBufs = append(zzArgBufs, c)
+	return c
+}
+
+func zzScribbleArgs() {
+	for _, b := range zzArgBufs {
+		for i := range b {
+			b[i] = 0xEE
+		}
+	}
+	zzArgBufs = nil
+}
+
 // zzModelOp applies one symbolic API call to both the real transaction and the model and compares
 // every returned value and error.
 func zzModelOp(tx *Tx, root *zzMB, writable bool, ps int, mask int) {
+	defer zzScribbleArgs()
 	t := zzPickTarget(tx, root, 3)
 	var en []int
 	for i := 0; i < 16; i++ {
@@ -170,7 +191,7 @@ func zzModelOp(tx *Tx, root *zzMB, writable bool, ps int, mask int) {
 		switch op % 3 {
 		case 0:
 			zz.Reach("tx.CreateBucket")
-			_, err := tx.CreateBucket(name)
+			_, err := tx.CreateBucket(zzArg(name))
 			if roErr(err) {
 				return
 			}
@@ -182,7 +203,7 @@ func zzModelOp(tx *Tx, root *zzMB, writable bool, ps int, mask int) {
 			}
 		case 1:
 			zz.Reach("tx.DeleteBucket")
-			err := tx.DeleteBucket(name)
+			err := tx.DeleteBucket(zzArg(name))
 			if roErr(err) {
 				return
 			}
@@ -194,7 +215,7 @@ func zzModelOp(tx *Tx, root *zzMB, writable bool, ps int, mask int) {
 			}
 		case 2:
 			zz.Reach("tx.CreateBucketIfNotExists")
-			b, err := tx.CreateBucketIfNotExists(name)
+			b, err := tx.CreateBucketIfNotExists(zzArg(name))
 			if roErr(err) {
 				return
 			}
@@ -217,7 +238,7 @@ func zzModelOp(tx *Tx, root *zzMB, writable bool, ps int, mask int) {
 		if len(v) > 0 {
 			v[0] = zz.U8("putv0")
 		}
-		err := b.Put(k, v)
+		err := b.Put(zzArg(k), v)
 		if roErr(err) {
 			return
 		}
@@ -235,7 +256,7 @@ func zzModelOp(tx *Tx, root *zzMB, writable bool, ps int, mask int) {
 	case 1:
 		zz.Reach("Get")
 		k := zzSymKey("getk")
-		got := b.Get(k)
+		got := b.Get(zzArg(k))
 		i, ok := m.find(k)
 		if !ok || m.subs[i] != nil {
 			zz.Assert(got == nil, "model/get-missing-or-bucket-is-nil")
@@ -248,7 +269,7 @@ func zzModelOp(tx *Tx, root *zzMB, writable bool, ps int, mask int) {
 		if zz.Choose(3) == 0 {
 			k = []byte("pg")
 		}
-		err := b.Delete(k)
+		err := b.Delete(zzArg(k))
 		if roErr(err) {
 			return
 		}
@@ -264,7 +285,7 @@ func zzModelOp(tx *Tx, root *zzMB, writable bool, ps int, mask int) {
 	case 3:
 		zz.Reach("CreateBucket")
 		name := zzSymKey("bname")
-		nb, err := b.CreateBucket(name)
+		nb, err := b.CreateBucket(zzArg(name))
 		if roErr(err) {
 			return
 		}
@@ -287,7 +308,7 @@ func zzModelOp(tx *Tx, root *zzMB, writable bool, ps int, mask int) {
 		case 2:
 			name = zzSymKey("dbname")
 		}
-		err := b.DeleteBucket(name)
+		err := b.DeleteBucket(zzArg(name))
 		if roErr(err) {
 			return
 		}
@@ -332,7 +353,7 @@ func zzModelOp(tx *Tx, root *zzMB, writable bool, ps int, mask int) {
 				i++
 				continue
 			}
-			err := b.Delete(m.keys[i])
+			err := b.Delete(zzArg(m.keys[i]))
 			if roErr(err) {
 				return
 			}
@@ -492,7 +513,11 @@ func HarnessMove() {
 	if fresh && string(child) == "c1" {
 		edited = true // created and filled in this very transaction
 	}
-	merr := tx.MoveBucket(child, src.b, dst.b)
+	mchild := zzClone(child)
+	merr := tx.MoveBucket(mchild, src.b, dst.b)
+	for i := range mchild {
+		mchild[i] = 0xEE
+	}
 	// model
 	var moved *zzMB
 	if cok {
